@@ -190,6 +190,26 @@ def b3mon_bin(profile="debug"):
     return core.cargo_build("asm", profile, package="b3inc", binname="b3mon", features=[])
 
 
+def c12(ctx):
+    import sys
+    sys.path.insert(0, os.path.join(core.VERIF, "pyspec"))
+    import cli_monitor
+    flavours = [("asm", "release")] + ([("asm", "debug"), ("intr", "release"), ("pure", "release")] if ctx.thorough else [("asm", "debug")])
+    for i, (fl, prof) in enumerate(flavours):
+        exe = b3sum_bin(fl, prof)
+        scale = 1.0 if i == 0 else 0.3
+        r = cli_monitor.run(exe, ctx.seed + i, ctx.thorough, scale)
+        name = "c12/cli-%s-%s" % (fl, prof)
+        seen = set()
+        for sig, detail, idx in r["violations"]:
+            ctx.add_violation(sig, "[%s] %s" % (name, detail), {"kind": "cmd", "cmd": ["./check", "C12", "--tier", ctx.tier], "cwd": core.VERIF, "note": "case %d of seed %d" % (idx, ctx.seed + i)})
+        if r["inconclusive"]:
+            ctx.note_inconclusive("%s: %d invocations hit the watchdog" % (name, r["inconclusive"]))
+        ctx.add_observed(name, r["evaluations"], r["distinct"], r["samples"],
+                         "one evaluation = one invocation of the real b3sum binary (built from the unmodified b3sum/src/main.rs): hashing invocations over mode x --length x --seek x --no-mmap x --num-threads x output form x file count x stdin compared byte for byte with pyspec's S[seek..seek+length]; --check invocations over generated checkfiles mixing good/stale/missing/malformed entries compared with a model of the checkfile (report lines in order, failure count, exit status); distinct = distinct (mode, form, length, seek class, file count, flags) / (checkfile count, verdict, entry kinds) classes",
+                         {k: r[k] for k in ("hash_invocations", "check_invocations", "check_cases_with_bad_entries", "check_cases_all_good")})
+
+
 def c13(ctx):
     exe = b3mon_bin("debug")
     ctx.mon("c13/lines", "asm", "debug", ["lines"], binary=exe)
@@ -209,6 +229,7 @@ PROPS = {
     "C09": c09,
     "C10": c10,
     "C11": c11,
+    "C12": c12,
     "C13": c13,
     "C14": c14,
     "C15": c15,
